@@ -27,47 +27,52 @@ type zzFact struct {
 type zzRound struct {
 	n, c   uint32
 	pool   *BlockPool
+	pp     *PeerPool
 	facts  []zzFact
-	keys   []keypair.PublicKey // keys[i] belongs to participant i+1
+	known  []uint32 // participants seen so far (pairwise distinct on this path); known[i] owns table key i
 	nextSg byte
 }
 
-// N participants 1..N with real keys, all connected; C = floor((N-1)/3); the endorser role list is symbolic.
+// N participants with real keys, all connected; C = floor((N-1)/3). Participant ids are symbolic: only which
+// messages come from the same participant matters, so the peer table is keyed by the id terms themselves and
+// the solver enumerates the partitions. Proposers are the concrete ids 1..P.
 func zzNewRound() *zzRound {
 	nmin := zzsym.Param("NMIN")
 	n := nmin + zzsym.Choose("N", zzsym.Param("NMAX")-nmin+1)
 	c := (n - 1) / 3
 	r := &zzRound{n: uint32(n), c: uint32(c)}
-	pp := &PeerPool{peers: map[uint32]*Peer{}}
-	for i := 1; i <= n; i++ {
-		k := zzsym.PubKey(i - 1)
-		r.keys = append(r.keys, k)
-		pp.peers[uint32(i)] = &Peer{Index: uint32(i), PubKey: k, connected: true}
-	}
-	srv := &Server{Index: 1, config: &vconfig.ChainConfig{N: uint32(n), C: uint32(c)}, peerPool: pp, stateMgr: &StateMgr{}}
-	pp.server = srv
-	part := &BlockParticipantConfig{BlockNum: zzBlk}
-	for i := 0; i < 2*c+1; i++ {
-		part.Endorsers = append(part.Endorsers, r.id("role.endorser"))
-	}
-	srv.currentParticipantConfig = part
+	r.pp = &PeerPool{peers: map[uint32]*Peer{}}
+	srv := &Server{Index: 1, config: &vconfig.ChainConfig{N: uint32(n), C: uint32(c)}, peerPool: r.pp, stateMgr: &StateMgr{}}
+	r.pp.server = srv
+	// no participant is in the endorser role list unless a harness sets one (in the code under test the role
+	// only weighs empty votes in commitDone)
+	srv.currentParticipantConfig = &BlockParticipantConfig{BlockNum: zzBlk}
 	r.pool = &BlockPool{server: srv, candidateBlocks: map[uint32]*CandidateInfo{}}
 	srv.blockPool = r.pool
+	for i := 1; i <= zzsym.Param("P"); i++ {
+		r.register(uint32(i))
+	}
 	return r
 }
 
-// a participant id: the server only admits messages whose signature verifies against a known peer
+func (r *zzRound) register(v uint32) {
+	if _, ok := r.pp.peers[v]; !ok { // forks: an already known participant, or a new one
+		r.pp.peers[v] = &Peer{Index: v, PubKey: zzsym.PubKey(len(r.known)), connected: true}
+		r.known = append(r.known, v)
+	}
+}
+
+// a participant id: the server only admits messages whose signature verifies against one of the N known peers
 func (r *zzRound) id(name string) uint32 {
 	v := zzsym.U32(name)
 	zzsym.Assume(zzA(v >= 1, v <= r.n))
+	r.register(v)
 	return v
 }
 
-// a proposer id: one of the first P participants (the round has C+1 proposers)
+// a proposer id: one of the first P participants (a round has C+1 proposers), explored value by value
 func (r *zzRound) prop(name string) uint32 {
-	v := zzsym.U32(name)
-	zzsym.Assume(zzA(v >= 1, v <= uint32(zzsym.Param("P"))))
-	return v
+	return uint32(1 + zzsym.Choose(name, zzsym.Param("P")))
 }
 
 func (r *zzRound) sig() (byte, []byte) {
@@ -225,21 +230,43 @@ func ZZ_C41_CommitDone() {
 		zzsym.Assert(endorsers, "without commit messages only more than N-1-C distinct endorsers commit the round")
 		zzsym.Cover("commit-by-endorsers")
 	} else {
-		zzsym.Cover("commit-by-signers")
+		zzsym.Cover("commit-with-commit-msgs")
 	}
 	zzsym.Cover("commit-done")
 }
 
+// Same check, fed with commit messages only (spec KINDS=4): exercises getCommitConsensus.
+func ZZ_C41_CommitBySigners() {
+	ZZ_C41_CommitDone()
+}
+
 // The empty-block flag of commitDone (no commit messages): set only when more than N-1-C distinct participants
-// voted for an empty block (no vote counts twice).
+// voted for an empty block (no vote counts twice). N-C distinct participants endorse proposal 1 (the first 2C+1 of
+// them hold the endorser role), then M further endorsements of any shape arrive.
 func ZZ_C41_CommitEmptyFlag() {
 	r := zzNewRound()
+	role := r.pool.server.currentParticipantConfig
+	for i := uint32(0); i < r.n-r.c; i++ {
+		e := r.id("endorse.endorser")
+		for _, f := range r.facts {
+			zzsym.Assume(f.who != e)
+		}
+		if i < 2*r.c+1 {
+			role.Endorsers = append(role.Endorsers, e)
+		}
+		tag, sg := r.sig()
+		r.facts = append(r.facts, zzFact{who: e, proposer: 1, sig: tag})
+		r.pool.newBlockEndorsement(&blockEndorseMsg{Endorser: e, EndorsedProposer: 1, BlockNum: zzBlk, EndorserSig: sg})
+	}
 	r.messages(zzsym.Param("M"), 1, 0)
 	_, forEmpty, done := r.pool.commitDone(zzBlk, r.c, r.n)
 	if done && forEmpty {
 		zzsym.Assert(r.atLeast(r.n-r.c, func(f zzFact) bool { return f.empty }),
 			"the commit decision is for an empty block only when more than N-1-C distinct participants voted empty")
 		zzsym.Cover("commit-empty")
+	}
+	if done {
+		zzsym.Cover("commit-flag-decided")
 	}
 	zzsym.Cover("commit-flag-done")
 }
@@ -276,13 +303,23 @@ func ZZ_C41_OneVotePerParticipant() {
 	zzsym.Cover("votes-done")
 }
 
-func (r *zzRound) participantOf(k keypair.PublicKey) uint32 {
-	for i, q := range r.keys {
-		if q == k {
-			return uint32(i + 1)
+// index (into r.known) of the participant owning key k, -1 if none
+func (r *zzRound) participantOf(k keypair.PublicKey) int {
+	for i := range r.known {
+		if r.pp.peers[r.known[i]].PubKey == k {
+			return i
 		}
 	}
-	return 0
+	return -1
+}
+
+func (r *zzRound) indexOf(id uint32) int {
+	for i, v := range r.known {
+		if v == id {
+			return i
+		}
+	}
+	return -1
 }
 
 // A sealed block carries the proposer's signature and exactly one signature per distinct supporting participant.
@@ -301,16 +338,18 @@ func ZZ_C41_SealSignatures() {
 		own = 0xF1
 	}
 	zzsym.Assert(len(h.Bookkeepers) == len(h.SigData) && len(h.Bookkeepers) >= 1, "one signature per bookkeeper")
-	zzsym.Assert(r.participantOf(h.Bookkeepers[0]) == p && len(h.SigData[0]) == 1 && h.SigData[0][0] == own, "the proposer signs first, with the signature of the sealed variant")
-	seen := make([]bool, r.n+1)
-	seen[p] = true
+	pi := r.indexOf(p)
+	zzsym.Assert(r.participantOf(h.Bookkeepers[0]) == pi && len(h.SigData[0]) == 1 && h.SigData[0][0] == own, "the proposer signs first, with the signature of the sealed variant")
+	seen := make([]bool, len(r.known))
+	seen[pi] = true
 	for i := 1; i < len(h.Bookkeepers); i++ {
-		who := r.participantOf(h.Bookkeepers[i])
-		zzsym.Assert(who != 0 && !seen[who], "a sealed block carries at most one signature per participant")
-		if who == 0 || seen[who] {
+		wi := r.participantOf(h.Bookkeepers[i])
+		zzsym.Assert(wi >= 0 && !seen[wi], "a sealed block carries at most one signature per participant")
+		if wi < 0 || seen[wi] {
 			continue
 		}
-		seen[who] = true
+		seen[wi] = true
+		who := r.known[wi]
 		tag := h.SigData[i][0]
 		said := false
 		for _, f := range r.facts {
@@ -320,13 +359,15 @@ func ZZ_C41_SealSignatures() {
 		zzsym.Cover("supporter-signature")
 	}
 	// every participant whose recorded vote matches is represented
-	for id := uint32(1); id <= r.n; id++ {
-		if id == p {
-			continue
-		}
-		for _, s := range r.pool.candidateBlocks[zzBlk].EndorseSigs[id] {
-			if s.EndorsedProposer == p && s.ForEmpty == forEmpty {
-				zzsym.Assert(seen[id], "every distinct supporting participant is represented in the sealed block")
+	if c := r.pool.candidateBlocks[zzBlk]; c != nil {
+		for i, id := range r.known {
+			if i == pi {
+				continue
+			}
+			for _, s := range c.EndorseSigs[id] {
+				if s.EndorsedProposer == p && s.ForEmpty == forEmpty {
+					zzsym.Assert(seen[i], "every distinct supporting participant is represented in the sealed block")
+				}
 			}
 		}
 	}
@@ -342,7 +383,7 @@ func ZZ_C41_EndorseDone_witness() {
 
 func ZZ_C41_CommitDone_witness() {
 	r := zzNewRound()
-	r.messages(1, 3, 1)
+	r.messages(1, 4, 1)
 	_, _, done := r.pool.commitDone(zzBlk, r.c, r.n)
 	zzsym.Assert(!done, "witness: one commit message carrying an endorser signature reaches the N=4 threshold")
 }
